@@ -97,6 +97,9 @@ pub fn malformed_shapes(f: Family, head: &[u8]) -> Vec<Vec<u8>> {
 /// about those (the property only forbids retrying after them), so a successful result is tolerated for them.
 fn is_undefined_kind_shape(d: &[u8]) -> bool { d != GARBAGE && d.len() > 1 }
 
+/// `unit` value meaning "faults may hit every request unit of the exchange" (the retry count is per request, not per query)
+const ALL_UNITS: usize = usize::MAX;
+
 struct Faults {
     family: Family,
     unit: usize,
@@ -113,15 +116,16 @@ impl Policy for Faults {
         if starts_attempt(self.family, pt.data) {
             self.recv_since_start = 0;
         }
-        if self.cur_unit == self.unit {
+        if self.unit == ALL_UNITS || self.cur_unit == self.unit {
             2
         } else {
             1
         }
     }
     fn recv_menu(&mut self, pt: &RecvPoint) -> usize {
-        if self.cur_unit == self.unit && !pt.queue.is_empty() && (!self.first_recv_only || self.recv_since_start == 0) {
-            2 + malformed_shapes(self.family, &pt.queue[0]).len()
+        if (self.unit == ALL_UNITS || self.cur_unit == self.unit) && !pt.queue.is_empty() && (!self.first_recv_only || self.recv_since_start == 0) {
+            // (faults in every unit at once: timeout-class faults only, the malformed replies are covered unit by unit)
+            if self.unit == ALL_UNITS { 2 } else { 2 + malformed_shapes(self.family, &pt.queue[0]).len() }
         } else {
             1
         }
@@ -203,6 +207,28 @@ pub fn attempts(f: Family, unit: usize, log: &[WireEvent], malformed: &[Vec<u8>]
     v
 }
 
+/// The attempt-sequence rules of the reference model for one request unit and retry count `r`.
+fn judge_attempts(at: &[Attempt], r: usize) -> Option<(String, String)> {
+    let mut bad: Option<(String, String)> = None;
+    if at.len() > r + 1 {
+        bad = Some(("too-many-attempts".into(), format!("{} attempts with retries={r}", at.len())));
+    }
+    for (i, a) in at.iter().enumerate() {
+        let more = i + 1 < at.len();
+        if !a.timeout_class() && more {
+            bad = Some((
+                if matches!(a, Attempt::Malformed | Attempt::UndefinedKind) { "retry-after-malformed-reply".into() } else { "retry-after-valid-reply".into() },
+                format!("attempt {} was {a:?} but {} more followed", i + 1, at.len() - i - 1),
+            ));
+            break;
+        }
+        if a.timeout_class() && !more && i + 1 < r + 1 {
+            bad = Some(("gives-up-before-r+1-attempts".into(), format!("{} attempts, last one {a:?}, retries={r}", at.len())));
+        }
+    }
+    bad
+}
+
 #[derive(Clone)]
 struct Case {
     label: String,
@@ -246,6 +272,26 @@ fn build(tier: Tier) -> Vec<Case> {
             }
         }
     }
+    // multi-request exchanges: timeout-class faults in every request of the same query (each request has its own r+1 attempts)
+    for t in protocol_targets() {
+        if !t.honours_timeout || !matches!(t.family, Family::Unreal2 | Family::Valve(_)) || units(t.family, &t).len() < 2 {
+            continue;
+        }
+        if let Some((p, r)) = t.toggles {
+            if p != GatherToggle::Enforce || r != GatherToggle::Enforce {
+                continue;
+            }
+        }
+        for retries in 0 ..= if tier.is_thorough() { 3usize } else { 2 } {
+            v.push(Case {
+                label: format!("{} faults in every request unit retries={retries}", t.name),
+                target: t.clone(),
+                retries,
+                unit: ALL_UNITS,
+                empty_server: false,
+            });
+        }
+    }
     v
 }
 
@@ -262,7 +308,8 @@ impl Prop for C10 {
         "case = (protocol entry point that retries, request unit of its exchange: info / players / rules, handshake+data, \
          handshake+status+ping ..., retry count r in 0..3 (quick) / 0..5 (thorough)). Within the unit every send may fail and every pending reply may \
          be delivered, dropped (silence) or replaced by a malformed reply (2-4 shapes per format, see assumptions); ALL such outcome sequences are enumerated (the tree is finite \
-         because attempts are bounded), the other units are answered validly. Reference model: attempts continue exactly \
+         because attempts are bounded), the other units are answered validly; for the multi-request exchanges (Valve, Unreal 2) also \
+         all sequences of timeout-class faults in EVERY unit of one query (r <= 2 quick / 3 thorough): each request has its own r+1 attempts. Reference model: attempts continue exactly \
          while the previous attempt was timeout-class (nothing received / could not send) and fewer than r+1 were made; never \
          after a malformed reply; first valid attempt => result identical to the fault-free result; malformed => error of a \
          non-timeout kind; all r+1 timeout-class => PacketReceive / PacketSend error. distinct_nontrivial = distinct (outcome \
@@ -336,25 +383,52 @@ impl Prop for C10 {
                 (x, d)
             },
             |ctx, x, malformed| {
-                let at = attempts(fam, case.unit, &x.log, malformed);
                 let tag = super::c09::family_tag(fam);
-                let mut bad: Option<(String, String)> = None;
-                if at.len() > r + 1 {
-                    bad = Some(("too-many-attempts".into(), format!("{} attempts with retries={r}", at.len())));
-                }
-                for (i, a) in at.iter().enumerate() {
-                    let more = i + 1 < at.len();
-                    if !a.timeout_class() && more {
-                        bad = Some((
-                            if matches!(a, Attempt::Malformed | Attempt::UndefinedKind) { "retry-after-malformed-reply".into() } else { "retry-after-valid-reply".into() },
-                            format!("attempt {} was {a:?} but {} more followed", i + 1, at.len() - i - 1),
-                        ));
-                        break;
+                if case.unit == ALL_UNITS {
+                    let mut bad: Option<(String, String)> = None;
+                    let mut exhausted = false;
+                    let mut all: Vec<Vec<Attempt>> = Vec::new();
+                    for u in units(t.family, t) {
+                        let at = attempts(fam, u, &x.log, &[]);
+                        if bad.is_none() {
+                            bad = judge_attempts(&at, r).map(|(k, d)| (format!("{k}:unit{u}-with-faults-in-other-units"), d));
+                        }
+                        if at.last().is_some_and(|a| a.timeout_class()) {
+                            exhausted = true;
+                        }
+                        all.push(at);
                     }
-                    if a.timeout_class() && !more && i + 1 < r + 1 {
-                        bad = Some(("gives-up-before-r+1-attempts".into(), format!("{} attempts, last one {a:?}, retries={r}", at.len())));
+                    if bad.is_none() {
+                        if exhausted {
+                            match x.outcome.err_kind() {
+                                Some(GDErrorKind::PacketReceive) | Some(GDErrorKind::PacketSend) => {}
+                                _ => bad = Some(("exhausted-retries-not-a-timeout-error".into(), format!("outcome {}", x.outcome.class()))),
+                            }
+                        } else if x.outcome.ok() != Some(&baseline) {
+                            bad = Some(("result-differs-from-fault-free".into(), format!("outcome {}", x.outcome.class())));
+                        }
                     }
+                    match bad {
+                        None => {
+                            if all.iter().filter(|a| a.len() > 1).count() > 1 {
+                                ctx.sample(serde_json::json!({"case": case.label, "attempt_outcomes_per_unit": format!("{all:?}"), "result": x.outcome.class()}));
+                            }
+                        }
+                        Some((kind, detail)) => {
+                            ctx.violation(
+                                format!("retry:{kind}:{tag}"),
+                                &x.choices(),
+                                detail,
+                                format!("attempts per request unit {all:?}; outcome {}", x.outcome.describe_json()),
+                                format!("reference model for retries={r}: every request has its own {} attempts", r + 1),
+                                render_log(&x.log),
+                            );
+                        }
+                    }
+                    return;
                 }
+                let at = attempts(fam, case.unit, &x.log, malformed);
+                let mut bad: Option<(String, String)> = judge_attempts(&at, r);
                 if bad.is_none() {
                     match at.last() {
                         None => {}
